@@ -35,12 +35,14 @@ func (d BinomialDist) PMF(k float64) float64 {
 // independent Bernoulli trials with probability d.P.
 func (d BinomialDist) CDF(k float64) float64 {
 	k = math.Floor(k)
-	ki := int(k)
-	if ki < 0 {
+	// Compare as floats: converting a k beyond the int range
+	// (including +Inf) to int is not meaningful.
+	if k < 0 {
 		return 0
-	} else if ki >= d.N {
+	} else if k >= float64(d.N) {
 		return 1
 	}
+	ki := int(k)
 
 	return mathx.BetaInc(1-d.P, float64(d.N-ki), k+1)
 }
